@@ -786,6 +786,8 @@ def numeric_pr(rep, fnd, pid, tier):
             # path); from names but used after a life-cycle operation (deep copy, .double() of float32-built modules compared at
             # float32 accuracy is C16's business - here: copies and reuse of ONE object across images)
             kind = ["names", "tuples", "deepcopy", "names, objects reused"][n % 4]
+            if q in ("qshift_06", "qshift_a") and n % 2:
+                kind = "state_dict loaded into modules built from the OTHER 10-tap q-shift table"
             cfg = dict(biort=b, qshift=q, H=H, W=W, J=J, modules=kind)
             try:
                 if kind == "tuples":
@@ -796,6 +798,12 @@ def numeric_pr(rep, fnd, pid, tier):
                     inv = pw.DTCWTInverse(biort=(g0o, g1o), qshift=(g0a, g0b, g1a, g1b))
                 else:
                     fwd, inv = pw.DTCWTForward(biort=b, qshift=q, J=J), pw.DTCWTInverse(biort=b, qshift=q)
+                if kind.startswith("state_dict"):
+                    q2 = "qshift_a" if q == "qshift_06" else "qshift_06"
+                    f2, i2 = pw.DTCWTForward(biort=b, qshift=q2, J=J), pw.DTCWTInverse(biort=b, qshift=q2)
+                    f2.load_state_dict(fwd.state_dict())
+                    i2.load_state_dict(inv.state_dict())
+                    fwd, inv = f2, i2
                 if kind == "deepcopy":
                     import copy
                     fwd, inv = copy.deepcopy(fwd), copy.deepcopy(inv)
